@@ -3,6 +3,8 @@ package main
 import (
 	"fmt"
 	"github.com/Oneledger/protocol/action/staking"
+	"github.com/Oneledger/protocol/data/rewards"
+	"math/big"
 	"math/rand"
 	"os"
 	"strings"
@@ -266,6 +268,26 @@ func checkC13(tier string) int {
 				p.YearShares = []string{"1000000000000000000000"}
 				p.YearCloseWindow = 3600 * 24 * 400
 				p.RewardPoolOLT = "3000000000000000000"
+			}
+			if i%8 == 7 {
+				// a chain started from the dumped state of an earlier one: every validator has three reward chunks on
+				// record, two of them matured there already, the third being the one rewards were going to when the
+				// state was dumped (the interval record says where the numbering goes on)
+				p.Mutate = func(st *consensus.AppState) {
+					chunk := balance.NewAmountFromBigInt(world.BigFromString("5000000000000000000000"))
+					all := balance.NewAmountFromBigInt(world.BigFromString("10000000000000000000000"))
+					total := new(big.Int)
+					for _, sk := range st.Staking {
+						for idx := int64(1); idx <= 3; idx++ {
+							st.Rewards.RewardState.Rewards = append(st.Rewards.RewardState.Rewards, rewards.IntervalReward{Address: sk.ValidatorAddress, Index: idx, Amount: chunk})
+						}
+						st.Rewards.RewardState.AddrList = append(st.Rewards.RewardState.AddrList, sk.ValidatorAddress)
+						st.Rewards.CumuState.MaturedBalances = append(st.Rewards.CumuState.MaturedBalances, rewards.RewardAmount{Address: sk.ValidatorAddress, Amount: all})
+						total.Add(total, all.BigInt())
+					}
+					st.Rewards.RewardState.Intervals = append(st.Rewards.RewardState.Intervals, rewards.Interval{LastIndex: 3, LastHeight: 2})
+					st.Rewards.CumuState.TotalDistributed = balance.NewAmountFromBigInt(total)
+				}
 			}
 			return p
 		},
